@@ -20,6 +20,7 @@ mod tamper;
 
 fn main() {
     clock::self_test();
+    mc::install_panic_hook();
     let args: Vec<String> = std::env::args().skip(1).collect();
     let cmd = args.first().map(|s| s.as_str()).unwrap_or("");
     let tier = args.get(1).map(|s| s.as_str()).unwrap_or("quick");
